@@ -24,7 +24,8 @@ def parseTree : Nat → List Char → Option (Tree × List Char)
   | 0, _ => none
   | _ + 1, 'i' :: r =>
     let (ds, rest) := takeUntil (fun c => !(c == '-' || isDigit c)) r
-    (parseInt ds).map fun v => (.leaf v, rest)
+    (parseInt ds).map fun v => (.leaf (.int v), rest)
+  | _ + 1, 'N' :: r => some (.leaf .none, r)
   | n + 1, '(' :: r => (parseTrees n r).map fun (xs, rest) => (.list xs, rest)
   | n + 1, '<' :: r => (parseKvs n r).map fun (kvs, rest) => (.node kvs, rest)
   | _, _ => none
@@ -72,19 +73,25 @@ def parseItems : Nat → List Char → Option (List (Name × PVal) × List Char)
     | _ => none
 end
 
-def valOf (s : List Char) : Option PVal :=
+/-- a space (inside a key) travels as '@' -/
+def unAt (s : List Char) : List Char := s.map fun c => if c = '@' then ' ' else c
+
+def valOf (s0 : List Char) : Option PVal :=
+  let s := unAt s0
   match parseVal (s.length + 2) s with
   | some (v, []) => some v
   | _ => none
 
-def treeOf (s : List Char) : Option Tree :=
+def treeOf (s0 : List Char) : Option Tree :=
+  let s := unAt s0
   match parseTree (s.length + 2) s with
   | some (t, []) => some t
   | _ => none
 
 mutual
 def showTree : Tree → List Char
-  | .leaf v => 'i' :: (toString v).toList
+  | .leaf (.int v) => 'i' :: (toString v).toList
+  | .leaf .none => ['N']
   | .node kvs => '<' :: showKvs kvs ++ ['>']
   | .list xs => '(' :: showTrees xs ++ [')']
 def showKvs : Kvs → List Char
@@ -190,7 +197,9 @@ def runOp (cfg : Cfg) (w : World) (op : String) (s : Nat) (key : Name) (val : Li
 
 def fields (tok : String) : Option (String × Nat × Name × List Char) :=
   match (tok.split (· == '/')).toList.map (·.toString) with
-  | [op, s, key, val] => do pure (op, ← s.toNat?, key.toList, val.toList)
+  | [op, s, key, val] => do
+    -- a space inside a key travels as '@'
+    pure (op, ← s.toNat?, key.toList.map (fun c => if c = '@' then ' ' else c), val.toList)
   | _ => none
 
 def runOps (cfg : Cfg) : World → List String → List String → Option (List String)
